@@ -159,6 +159,9 @@ impl RegistryPackageResolver {
 
             finished += 1;
 
+            #[cfg(wac_verif)]
+            verif_completions().lock().unwrap().push(index);
+
             let (key, _) = keys.get_index(index).unwrap();
 
             if let Some(bar) = self.bar.as_ref() {
@@ -188,4 +191,12 @@ impl RegistryPackageResolver {
             source: e.into(),
         })
     }
+}
+
+/// Verification hook (only with `--cfg wac_verif`): the order in which download
+/// tasks completed during calls to `RegistryPackageResolver::resolve`.
+#[cfg(wac_verif)]
+pub fn verif_completions() -> &'static std::sync::Mutex<Vec<usize>> {
+    static COMPLETIONS: std::sync::Mutex<Vec<usize>> = std::sync::Mutex::new(Vec::new());
+    &COMPLETIONS
 }
